@@ -59,6 +59,9 @@ type caseOut struct {
 	Text   string `json:"text"`
 	Go     string `json:"go"`
 	Lean   string `json:"lean,omitempty"`
+	// History: the protocol lines executed in the same process directly before Line (the
+	// history-poisoning call of the case); a replay runs them first.
+	History []string `json:"history,omitempty"`
 }
 
 type checkOut struct {
@@ -85,7 +88,7 @@ func toCases(rs []result, max int) []caseOut {
 		if i >= max {
 			break
 		}
-		out = append(out, caseOut{Stream: r.stream, Index: r.idx, Line: r.line, Text: truncate(describe(r.line), 2000), Go: truncate(r.goAns, 4000), Lean: truncate(r.leanAns, 4000)})
+		out = append(out, caseOut{Stream: r.stream, Index: r.idx, Line: r.line, Text: truncate(describe(r.line), 2000), Go: truncate(r.goAns, 4000), Lean: truncate(r.leanAns, 4000), History: []string{zLine(envSeed(), r.idx)}})
 	}
 	return out
 }
